@@ -432,6 +432,14 @@ class ScalarOutOfRange(ValueError):
     """cryptography refuses an EC private scalar outside [1, n-1] with ValueError (probability ~2^-128 for a random draw)"""
 
 
+def ite_(cond, a, b):
+    from vlib.api import ite
+
+    if isinstance(cond, bool):
+        return a if cond else b
+    return ite(cond, a, b)
+
+
 def neg_(a):
     from vlib.api import neg
 
@@ -453,6 +461,7 @@ class Algebra:
 
     def __init__(self, world):
         self.w, self.c = world, world.c
+        self.guesses = []  # values an outsider commits to as "the shared secret" (see declare_guess)
         self.ff = []  # finite field elements: dict(mod, gen, exps, value)
         self.ec = []  # EC elements: dict(curve, gen, exps, x, y)
         self.n = 0
@@ -476,6 +485,12 @@ class Algebra:
         self.n += 1
         return self.c.int(f"{tag}{self.n}", 0, (1 << bits) - 1)
 
+    def declare_guess(self, value, trusted_mod):
+        """an outsider (who knows no private exponent) commits to `value` as the result of a modular exponentiation. In the trusted group
+        (modulus `trusted_mod`) an element with an unknown exponent cannot be guessed: it is assumed to differ from every declared guess.
+        For any OTHER modulus nothing is assumed - whoever chooses the group (e.g. a 2-bit prime) can guess its elements."""
+        self.guesses.append((value, trusted_mod))
+
     # -- finite field: pow(base, exp, mod)
     def pow(self, base, exp, mod=None):
         if mod is None:
@@ -485,6 +500,21 @@ class Algebra:
             raise ValueError("pow() 3rd argument cannot be 0")
         if truth(exp < 0):
             raise ValueError("base is not invertible for the given modulus")
+        # laws of modular exponentiation that hold in every group (these are not coincidences): results that do not depend on the exponent
+        if truth(self._eq(mod, 1)):
+            return 0
+        if isinstance(exp, int):
+            if exp == 0:
+                return 1
+        else:
+            self.c.assume(exp > 0)  # a private exponent that happens to be 0 is a coincidence (2^-512 for a derived / random key), see "no coincidences"
+        # (base is compared with the first two representatives of each residue; a full `base % mod` with both symbolic is not decidable in reach)
+        if truth(any_of([self._eq(base, 0), self._eq(base, mod)])):
+            return 0
+        if truth(any_of([self._eq(base, 1), self._eq(base, mod + 1)])):
+            return 1
+        if truth(any_of([self._eq(base, mod - 1), self._eq(base, 2 * mod - 1)])):
+            return ite_(self._eq(exp % 2, 0), 1, mod - 1)
         gen, exps = base, [exp]
         for r in self.ff:
             if truth(all_of([self._eq(r["mod"], mod), self._eq(r["value"], base)])):
@@ -502,6 +532,10 @@ class Algebra:
                 self.c.assume(neg_(self._eq(v, r["value"])))
                 self.c.assume(neg_(self._eq(v, r["gen"])))
         self.c.assume(neg_(self._eq(v, gen)))
+        self.c.assume(all_of([v > 1, v < mod - 1]) if not isinstance(v, int) else (1 < v < mod - 1))  # a non-degenerate base gives a non-degenerate element
+        for g, tm in self.guesses:
+            if truth(self._eq(mod, tm)):
+                self.c.assume(neg_(self._eq(v, g)))
         self.ff.append(dict(mod=mod, gen=gen, exps=exps, value=v))
         return v
 
